@@ -138,6 +138,24 @@ Definition player_move (st : pstatus) (action_time : Z) (v : pview) : option (mo
        | None => None
        end.
 
+(* the runner's status machine (player_runner.go Idle / Resume / Suspend, and the time-out callback): an idle player whose
+   thinking time runs out a second time in a row is suspended; Resume takes anybody back to running and forgets the count *)
+Inductive revent := RIdle | RResume | RSuspend | RTimeout.
+Definition suspend_threshold : nat := 2.
+Definition idle_step (s : pstatus * nat) : pstatus * nat :=
+  let c := match fst s with PIdle => S (snd s) | _ => O end in
+  if Nat.eqb c suspend_threshold then (PSuspended, c) else (PIdle, c).
+Definition rstep (s : pstatus * nat) (e : revent) : pstatus * nat :=
+  match e with
+  | RIdle => idle_step s
+  | RResume => match fst s with PRunning => s | _ => (PRunning, O) end
+  | RSuspend => (PSuspended, snd s)
+  | RTimeout => match fst s with PIdle => idle_step s | _ => s end
+  end.
+(* a request arms the thinking-time wait unless it is answered at once (a pass, or a suspended player) *)
+Definition arms_wait (st : pstatus) (v : pview) : bool :=
+  negb (has_act APass (pv_allowed v)) && match st with PSuspended => false | _ => true end.
+
 (* ---------------- the observer ---------------- *)
 Record oplayer := { op_hole : list nat; op_combo : bool; op_fold : bool }.
 Record ogame := { og_deck : list nat; og_burned : list nat; og_closed : bool; og_players : list oplayer }.
